@@ -256,6 +256,87 @@ theorem denied_retried_each_full_sync (cfg : Cfg) (l : Local) (c : Cat) :
     | none => rw [hl] at h; simp [hc] at h
     | some e0 => rw [hl] at h; simp only [Option.some.injEq] at h; subst h; simp [usChk, hc]
 
+/-- … and the same holds for DEregistrations: a refusal leaves the entry pending removal *and*
+    marked in sync, yet `SyncChanges` looks at the pending removal first, so the entry is handed to
+    `deleteService` / `deleteCheck` again by every later sync (partial or full), whatever its mark. -/
+theorem refused_deregistration_stays_pending_and_is_retried (cfg : Cfg) (f : Faults) (s : St) (id : Id)
+    (e : Ent SvcDef) (he : s.l.svcs.get? id = some e) (hd : e.deleted = true) (hid : id ≠ "") :
+    -- the refusal: still there, still pending removal, now marked in sync
+    (f.svc id = .denied → ∃ e', (svcStep cfg f s id).l.svcs.get? id = some e' ∧ e'.deleted = true ∧ e'.inSync = true) ∧
+    -- whatever the mark, the step is the deregistration attempt
+    svcStep cfg f s id = deleteService f id s := by
+  have hstep : svcStep cfg f s id = deleteService f id s := by
+    unfold svcStep
+    cases e with
+    | ghost b => rw [he]
+    | ent d tok loc b del => simp only [Ent.deleted] at hd; subst hd; rw [he]
+  refine ⟨?_, hstep⟩
+  intro hden
+  rw [hstep]
+  unfold deleteService
+  rw [if_neg hid, hden]
+  refine ⟨e.setInSync true, ?_, by simp [hd], by simp⟩
+  simp only [markSvc_svcs, if_true, he, Option.map_some]
+
+theorem refused_check_deregistration_stays_pending_and_is_retried (cfg : Cfg) (f : Faults) (s : St) (k : Id)
+    (e : Ent ChkDef) (he : s.l.chks.get? k = some e) (hd : e.deleted = true) (hk : k ≠ "") :
+    (f.chk k = .denied → ∃ e', (chkStep cfg f s k).l.chks.get? k = some e' ∧ e'.deleted = true ∧ e'.inSync = true) ∧
+    chkStep cfg f s k = deleteCheck f k s := by
+  have hstep : chkStep cfg f s k = deleteCheck f k s := by
+    unfold chkStep
+    cases e with
+    | ghost b => rw [he]
+    | ent d tok loc b del => simp only [Ent.deleted] at hd; subst hd; rw [he]
+  refine ⟨?_, hstep⟩
+  intro hden
+  rw [hstep]
+  unfold deleteCheck
+  rw [if_neg hk, hden]
+  refine ⟨e.setInSync true, ?_, by simp [hd], by simp⟩
+  unfold markChk
+  simp only [markChks_chks, List.mem_singleton, if_true, he, Option.map_some]
+
+/-- Consequently the next full sync whose RPCs succeed removes every entry pending removal from
+    the catalog and from the local state — in particular one left `Deleted` + `InSync` by a
+    refused deregistration (no assumption on `e.inSync`). -/
+theorem refused_deregistration_retried_by_next_clean_full_sync (cfg : Cfg) (ord : Order) (f : Faults) (l : Local) (c : Cat)
+    (hf : AllOk f) (hw : WF l c) (hnr : NoRebound l c) (hcd : CaseDistinct l c) :
+    (∀ id e, l.svcs.get? id = some e → e.deleted = true →
+        (syncFull cfg ord f l c).l.svcs.get? id = none ∧ (syncFull cfg ord f l c).c.svcs.get? id = none) ∧
+    (∀ k e, l.chks.get? k = some e → e.deleted = true →
+        (syncFull cfg ord f l c).l.chks.get? k = none ∧ (syncFull cfg ord f l c).c.chks.get? k = none) := by
+  obtain ⟨_, _, _, d1, d2, c1, c2⟩ := clean_full_sync_converges_partial cfg ord f l c hf hw hnr hcd
+  obtain ⟨k1, k2⟩ := full_sync_keeps_registrations cfg ord f l c ⟨hf.1, hf.2.1⟩
+  constructor
+  · intro id e he hd
+    have hlive : liveSvc (syncFull cfg ord f l c).l id = none := by
+      rw [k1]; simp [liveSvc, he, live?_deleted e hd]
+    have hgone : (syncFull cfg ord f l c).l.svcs.get? id = none := by
+      cases hr : (syncFull cfg ord f l c).l.svcs.get? id with
+      | none => rfl
+      | some e' =>
+        obtain ⟨q1, _⟩ := d1 id e' hr
+        have : e'.live? = none := by simpa [liveSvc, hr] using hlive
+        rw [deleted_of_not_live e' this] at q1; cases q1
+    refine ⟨hgone, ?_⟩
+    rw [c1 id (fun hk => by rw [hk.2] at he; cases he), hlive]
+  · intro k e he hd
+    have hlive : liveChk (syncFull cfg ord f l c).l k = none := by
+      rw [k2]; simp [liveChk, he, live?_deleted e hd]
+    have hgone : (syncFull cfg ord f l c).l.chks.get? k = none := by
+      cases hr : (syncFull cfg ord f l c).l.chks.get? k with
+      | none => rfl
+      | some e' =>
+        obtain ⟨q1, _⟩ := d2 k e' hr
+        have : e'.live? = none := by simpa [liveChk, hr] using hlive
+        rw [deleted_of_not_live e' this] at q1; cases q1
+    refine ⟨hgone, ?_⟩
+    have := c2 k (fun hk => by rw [hk.2] at he; cases he)
+    rw [hlive] at this
+    cases hc : (syncFull cfg ord f l c).c.chks.get? k with
+    | none => rfl
+    | some rc => rw [hc] at this; simp at this
+
 /-! ## 4. a failing RPC never marks anything -/
 
 /-- the record of a service whose RPC fails (with or without the write having been applied) comes
